@@ -105,3 +105,85 @@ func VerifC10Concurrent() {
 	}
 	verifrt.Cover("done")
 }
+
+// VerifC10FullWindow: the concurrent phase starts from a *full* LRU cache
+// (MaxCount 2, keys 0 and 1 set sequentially, OnDelete installed), so that the
+// very first concurrent Set already has to evict and opens the unlocked
+// OnDelete window; one goroutine does one Set (any of three keys: replacing
+// the oldest, replacing the newest, or a new key), the other one operation of
+// any kind on any key.  Then the same sequential epilogue as
+// VerifC10Concurrent: Count/Size exact, every key retrievable, fresh
+// insertions keep the accounting.  (In VerifC10Concurrent's 2 + 1 operations a
+// full cache with a third Set and a concurrent operation is out of reach.)
+func VerifC10FullWindow() {
+	const maxCount = 2
+	var delMu sync.Mutex
+	deleted := 0
+	conf := Config{MaxCount: maxCount, EnableLRU: true}
+	conf.OnDelete = func(k, v []byte) {
+		delMu.Lock()
+		deleted++
+		delMu.Unlock()
+		verifrt.Assert(len(k) == 1 && len(v) == 1 && v[0]>>4 == k[0], "OnDelete received a value that does not belong to the key")
+	}
+	ch := New(conf)
+	ch.Set([]byte{0}, []byte{0<<4 | 1})
+	ch.Set([]byte{1}, []byte{1<<4 | 1})
+	if verifrt.Bool2() {
+		// make key 1 the oldest
+		ch.Get([]byte{0})
+	}
+	var wg sync.WaitGroup
+	wg.Add(2)
+	go func() {
+		defer wg.Done()
+		kb := byte(verifrt.Choice(3))
+		ch.Set([]byte{kb}, []byte{kb<<4 | 2})
+	}()
+	go func() {
+		defer wg.Done()
+		kb := byte(verifrt.Choice(3))
+		key := []byte{kb}
+		switch verifrt.Choice(4) {
+		case 0:
+			ch.Set(key, []byte{kb<<4 | 3})
+		case 1:
+			got := ch.Get(key)
+			if got != nil {
+				verifrt.Assert(len(got) == 1 && got[0]>>4 == kb, "Get returned the value of another key")
+			}
+		case 2:
+			ch.Del(key)
+		default:
+			ch.Clear()
+		}
+	}()
+	wg.Wait()
+	st := ch.Stats()
+	verifrt.Assert(uint(st.Count) <= maxCount, "final Count exceeds MaxCount")
+	verifrt.Assert(st.Size == 2*st.Count, "final Size is not the summed key+value lengths of live entries")
+	live := 0
+	for k := byte(0); k < 3; k++ {
+		if got := ch.Get([]byte{k}); got != nil {
+			verifrt.Assert(len(got) == 1 && got[0]>>4 == k, "after the concurrent phase Get returns the value of another key")
+			live++
+		}
+	}
+	verifrt.Assert(live == st.Count, "after the concurrent phase Count differs from the number of retrievable keys")
+	for k := byte(3); k < 6; k++ {
+		ch.Set([]byte{k}, []byte{k<<4 | 1})
+		got := ch.Get([]byte{k})
+		verifrt.Assert(got != nil && len(got) == 1 && got[0] == k<<4|1, "after the concurrent phase a freshly set key is not retrievable")
+		st = ch.Stats()
+		verifrt.Assert(uint(st.Count) <= maxCount, "after the concurrent phase Count exceeds MaxCount")
+		verifrt.Assert(st.Size == 2*st.Count, "after the concurrent phase Size is not the summed key+value lengths of live entries")
+		live = 0
+		for j := byte(0); j < 6; j++ {
+			if ch.Get([]byte{j}) != nil {
+				live++
+			}
+		}
+		verifrt.Assert(live == st.Count, "after the concurrent phase Count differs from the number of retrievable keys")
+	}
+	verifrt.Cover("done")
+}
